@@ -46,6 +46,10 @@ def run(ctx: Context) -> None:
     # `batch_size` samples whatever the sampler returned (shape-preservation rules of the deduplication wrapper, shared with C12)
     from . import c12
     ctx.rule(c12.sample_rules)
+    # "the id of the sampler the scheduler designated": an id, once handed out, keeps designating the same sampler class (id-table rules of C18)
+    from . import c18
+    ctx.rule_any(c18.r1_semantic, c18.r1_monotone)
+    ctx.rule(c18.r1_writers)
 
 
 # ---------------------------------------------------------------------------------------------- R1
@@ -397,7 +401,7 @@ def r6_sorted_return(ctx: Context, v: CalibrateView) -> None:
 
 
 # ---------------------------------------------------------------------------------------------- R7
-def r7_lent_arrays(ctx: Context, only: tuple[str, ...] | None = None) -> None:
+def r7_lent_arrays(ctx: Context, only: tuple[str, ...] | None = None, where: tuple[str, ...] | None = None) -> None:
     """`only`: report in-place writes into these roles only (other checks borrow the rule for the part of the history they depend on)."""
     prog = ctx.prog
     attr_seeds = {("Calibrator", a): {f"history.{a}"} for a in HISTORY}
@@ -426,7 +430,7 @@ def r7_lent_arrays(ctx: Context, only: tuple[str, ...] | None = None) -> None:
         if "batch.params" in roles and "model" in name and (only is None or "batch.params" in only):
             ctx.fail("R7.lent-arrays", f"Calibrator.simulate_model:model-receives-batch:{name[:40]}", f"the user's model is called as `{name}` with (a view of) the proposed batch itself: a model that "
                      "modifies its parameter vector in place changes the parameters that are then recorded (and the other ensemble members' input)", sim, sim.node)
-    shown = {k: fd for k, fd in aa.findings.items() if only is None or k[0] in only}
+    shown = {k: fd for k, fd in aa.findings.items() if (only is None or k[0] in only) and (where is None or any(w in k[1] for w in where))}
     for (role, q, text), fd in sorted(shown.items()):
         ctx.fail("R7.lent-arrays", f"{q.split(':')[1]}:{role}:{text}", f"{fd.what} modifies recorded data ({role}) in place", fd.func, fd.node, fd.chain)
     if not shown:
